@@ -288,145 +288,145 @@ func ruleC05_4(c *Ctx) {
 			contexts = []*ssa.Function{homeFn(s.Fn)}
 		}
 		for _, encl := range contexts {
-		c.touch(encl)
-		name := "hashkit.Hash call in " + shortFn(encl)
-		seen[shortFn(encl)]++
-		// the call sits in a helper shared by several anchors (`resp.addKey(key)`): look at it under the call site
-		// that belongs to this anchor
-		evalUnder := func(f func()) { f() }
-		if h := outermostFn(s.Fn); h != encl && p.isHelper(h) {
-			var mine []Site
-			for _, hs := range p.helperSites(h) {
-				for _, g := range p.family(encl) {
-					if g == outermostFn(hs.Fn) && hs.Call != nil {
-						mine = append(mine, hs)
+			c.touch(encl)
+			name := "hashkit.Hash call in " + shortFn(encl)
+			seen[shortFn(encl)]++
+			// the call sits in a helper shared by several anchors (`resp.addKey(key)`): look at it under the call site
+			// that belongs to this anchor
+			evalUnder := func(f func()) { f() }
+			if h := outermostFn(s.Fn); h != encl && p.isHelper(h) {
+				var mine []Site
+				for _, hs := range p.helperSites(h) {
+					for _, g := range p.family(encl) {
+						if g == outermostFn(hs.Fn) && hs.Call != nil {
+							mine = append(mine, hs)
+						}
+					}
+				}
+				if len(mine) == 1 {
+					site := mine[0]
+					evalUnder = func(f func()) {
+						siteCtx[h] = site
+						withBinding(h, site.Call.Args, f)
+						delete(siteCtx, h)
 					}
 				}
 			}
-			if len(mine) == 1 {
-				site := mine[0]
-				evalUnder = func(f func()) {
-					siteCtx[h] = site
-					withBinding(h, site.Call.Args, f)
-					delete(siteCtx, h)
-				}
-			}
-		}
-		evalUnder(func() {
-		arg := strip(s.Call.Args[0])
-		// string(parseLine result #0) ?
-		fromParse := func(v ssa.Value) (*ssa.Call, bool) {
-			cv, ok := v.(*ssa.Convert)
-			if !ok {
-				return nil, false
-			}
-			ex, ok := strip(cv.X).(*ssa.Extract)
-			if !ok || ex.Index != 0 {
-				return nil, false
-			}
-			return p.isCallTo(ex.Tuple, parseLine)
-		}
-		idxGuard := func(want int64) bool {
-			return guardHas(guardsOf(s.Instr), func(g Guard) bool {
-				x, op, y, ok := cmpGuard(g)
-				if !ok || op != token.EQL {
-					return false
-				}
-				k, isK := constInt(y)
-				if prm, isP := y.(*ssa.Parameter); isP && !isK {
-					// the index is a parameter of a shared helper: every call made on behalf of this anchor passes the constant
-					idx := -1
-					for i, q := range prm.Parent().Params {
-						if q == prm {
-							idx = i
-						}
+			evalUnder(func() {
+				arg := strip(s.Call.Args[0])
+				// string(parseLine result #0) ?
+				fromParse := func(v ssa.Value) (*ssa.Call, bool) {
+					cv, ok := v.(*ssa.Convert)
+					if !ok {
+						return nil, false
 					}
-					n := 0
-					isK = true
-					for _, cs := range p.SitesOf(prm.Parent()) {
-						if cs.Call == nil || idx < 0 || idx >= len(cs.Call.Args) {
-							continue
+					ex, ok := strip(cv.X).(*ssa.Extract)
+					if !ok || ex.Index != 0 {
+						return nil, false
+					}
+					return p.isCallTo(ex.Tuple, parseLine)
+				}
+				idxGuard := func(want int64) bool {
+					return guardHas(guardsOf(s.Instr), func(g Guard) bool {
+						x, op, y, ok := cmpGuard(g)
+						if !ok || op != token.EQL {
+							return false
 						}
-						inCtx := false
-						for _, g2 := range p.family(encl) {
-							if g2 == outermostFn(cs.Fn) {
-								inCtx = true
+						k, isK := constInt(y)
+						if prm, isP := y.(*ssa.Parameter); isP && !isK {
+							// the index is a parameter of a shared helper: every call made on behalf of this anchor passes the constant
+							idx := -1
+							for i, q := range prm.Parent().Params {
+								if q == prm {
+									idx = i
+								}
 							}
-						}
-						if !inCtx {
-							continue
-						}
-						n++
-						if kk, ok := constInt(cs.Call.Args[idx]); ok {
-							k = kk
-							if kk != want {
+							n := 0
+							isK = true
+							for _, cs := range p.SitesOf(prm.Parent()) {
+								if cs.Call == nil || idx < 0 || idx >= len(cs.Call.Args) {
+									continue
+								}
+								inCtx := false
+								for _, g2 := range p.family(encl) {
+									if g2 == outermostFn(cs.Fn) {
+										inCtx = true
+									}
+								}
+								if !inCtx {
+									continue
+								}
+								n++
+								if kk, ok := constInt(cs.Call.Args[idx]); ok {
+									k = kk
+									if kk != want {
+										isK = false
+									}
+								} else {
+									isK = false
+								}
+							}
+							if n == 0 {
 								isK = false
 							}
-						} else {
-							isK = false
+						}
+						if !isK || k != want {
+							return false
+						}
+						ph, ok := x.(*ssa.Phi)
+						if !ok {
+							return false
+						}
+						z, step := false, false
+						for _, e := range ph.Edges {
+							if k, ok := constInt(e); ok && k == 0 {
+								z = true
+							}
+							if b, ok := e.(*ssa.BinOp); ok && b.Op == token.ADD && b.X == ssa.Value(ph) && isOne(b.Y) {
+								step = true
+							}
+						}
+						return z && step
+					})
+				}
+				switch encl.Name() {
+				case "Default", "Eval":
+					want := int64(0)
+					if encl.Name() == "Eval" {
+						want = 2
+					}
+					pl, okP := fromParse(arg)
+					lps := loopsOf(s.Instr.Parent())
+					sameIter := okP && pl.Block().Dominates(s.Instr.Block()) && innermostLoop(lps, pl.Block()) != nil && innermostLoop(lps, pl.Block()) == innermostLoop(lps, s.Instr.Block())
+					c.check(okP && sameIter && idxGuard(want), name, c.at(s.Instr), fmt.Sprintf("Hash(string(argument %d))", want),
+						fmt.Sprintf("the slot is not computed from argument %d of the request (the key): the request is routed by another argument", want), withGuards(guardsOf(s.Instr)))
+				case "Frag1", "Frag2":
+					pl, okP := fromParse(arg)
+					first := okP
+					if okP && encl.Name() == "Frag2" {
+						// the first parseLine of the iteration: it dominates the other one
+						for _, other := range p.callsIn(encl, parseLine) {
+							if other.(ssa.Instruction) != ssa.Instruction(pl) && !dominatesInstr(pl, other.(ssa.Instruction)) {
+								first = false
+							}
 						}
 					}
-					if n == 0 {
-						isK = false
+					c.check(okP && first, name, c.at(s.Instr), "Hash(string(key)) of the iteration's key", "the slot of a key group is not computed from the key (first element of the pair for MSET)")
+				case "MGet":
+					// SRespCodec.MGet: range value of msg.Keys
+					okK := false
+					if ld, ok := arg.(*ssa.UnOp); ok {
+						if ia, ok := ld.X.(*ssa.IndexAddr); ok {
+							if _, is := fieldLoad(ia.X, keys); is {
+								okK = true
+							}
+						}
 					}
+					c.check(okK, name, c.at(s.Instr), "Hash(k) for k in msg.Keys", "the reply assembly looks fragments up by a slot not derived from the request's keys")
+				default:
+					c.ok(name+" (other)", c.at(s.Instr), "not on the routing path: "+expr(arg))
 				}
-				if !isK || k != want {
-					return false
-				}
-				ph, ok := x.(*ssa.Phi)
-				if !ok {
-					return false
-				}
-				z, step := false, false
-				for _, e := range ph.Edges {
-					if k, ok := constInt(e); ok && k == 0 {
-						z = true
-					}
-					if b, ok := e.(*ssa.BinOp); ok && b.Op == token.ADD && b.X == ssa.Value(ph) && isOne(b.Y) {
-						step = true
-					}
-				}
-				return z && step
 			})
-		}
-		switch encl.Name() {
-		case "Default", "Eval":
-			want := int64(0)
-			if encl.Name() == "Eval" {
-				want = 2
-			}
-			pl, okP := fromParse(arg)
-			lps := loopsOf(s.Instr.Parent())
-			sameIter := okP && pl.Block().Dominates(s.Instr.Block()) && innermostLoop(lps, pl.Block()) != nil && innermostLoop(lps, pl.Block()) == innermostLoop(lps, s.Instr.Block())
-			c.check(okP && sameIter && idxGuard(want), name, c.at(s.Instr), fmt.Sprintf("Hash(string(argument %d))", want),
-				fmt.Sprintf("the slot is not computed from argument %d of the request (the key): the request is routed by another argument", want), withGuards(guardsOf(s.Instr)))
-		case "Frag1", "Frag2":
-			pl, okP := fromParse(arg)
-			first := okP
-			if okP && encl.Name() == "Frag2" {
-				// the first parseLine of the iteration: it dominates the other one
-				for _, other := range p.callsIn(encl, parseLine) {
-					if other.(ssa.Instruction) != ssa.Instruction(pl) && !dominatesInstr(pl, other.(ssa.Instruction)) {
-						first = false
-					}
-				}
-			}
-			c.check(okP && first, name, c.at(s.Instr), "Hash(string(key)) of the iteration's key", "the slot of a key group is not computed from the key (first element of the pair for MSET)")
-		case "MGet":
-			// SRespCodec.MGet: range value of msg.Keys
-			okK := false
-			if ld, ok := arg.(*ssa.UnOp); ok {
-				if ia, ok := ld.X.(*ssa.IndexAddr); ok {
-					if _, is := fieldLoad(ia.X, keys); is {
-						okK = true
-					}
-				}
-			}
-			c.check(okK, name, c.at(s.Instr), "Hash(k) for k in msg.Keys", "the reply assembly looks fragments up by a slot not derived from the request's keys")
-		default:
-			c.ok(name+" (other)", c.at(s.Instr), "not on the routing path: "+expr(arg))
-		}
-		})
 		}
 	}
 	for _, need := range []string{"(*CRespCodec).Default", "(*CRespCodec).Eval", "(*CRespCodec).Frag1", "(*CRespCodec).Frag2", "(*SRespCodec).MGet"} {
